@@ -5,32 +5,87 @@ for_property("C08")
 TF = "pynguin.instrumentation.transformer"
 
 # ---- proved: the line-level decision of AstInfo against its three-line specification -----------------------------------------
-klass("ast:AST", fields={})
+# an AST node is seen through three ghost fields: its first and last line and (for a module) the list of its definitions
+klass("ast:AST", fields={}, ghost={"lo": "int", "hi": "int", "defs": "list[AST]"})
 klass(f"{TF}:ModuleAstInfo", fields={"only_cover_lines": "set[int]", "no_cover_lines": "set[int]", "module_ast": "AST"})
 klass(f"{TF}:AstInfo", fields={"module": "ModuleAstInfo", "ast": "AST"})
-ufun("LO", ["AST"], "int")
-ufun("HI", ["AST"], "int")
-ufun("DEFS", ["AST"], "list[AST]")
 contract("pynguin.analyses.ast_utils:scope_line_range", mode="assume", sig={"node": "AST"}, returns="tuple[int,int]",
-         ensures=["result[0] == LO(node)", "result[1] == HI(node)"])
+         ensures=["result[0] == node.lo", "result[1] == node.hi"])
 contract("pynguin.analyses.ast_utils:nodes_of_class", mode="assume", sig={"tree": "AST", "types": "SutValue"},
-         returns="list[AST]", ensures=["result == DEFS(tree)"])
-assumption("scope_line_range(node) is the pair (LO, HI) of first and last line of an AST node and nodes_of_class(module_ast, "
-           "(FunctionDef, AsyncFunctionDef, ClassDef)) the list DEFS of the module's definitions (ast walks, assumed)")
+         returns="list[AST]", ensures=["result == tree.defs"])
+assumption("scope_line_range(node) is the pair (lo, hi) of first and last line of an AST node and nodes_of_class(module_ast, "
+           "(FunctionDef, AsyncFunctionDef, ClassDef)) the list defs of the module's definitions (ast walks, assumed; the native "
+           "replay builds real ast nodes with these line numbers and runs the real functions)")
 predicate("contains_only(a)", "any(c in a.module.only_cover_lines and c not in a.module.no_cover_lines "
-                              "for c in range(LO(a.ast), HI(a.ast) + 1))")
-predicate("parent_only(a, n)", "any(LO(DEFS(a.module.module_ast)[i]) in a.module.only_cover_lines and "
-                               "LO(DEFS(a.module.module_ast)[i]) <= n and n <= HI(DEFS(a.module.module_ast)[i]) "
-                               "for i in range(len(DEFS(a.module.module_ast))))")
+                              "for c in range(a.ast.lo, a.ast.hi + 1))")
+predicate("parent_only(a, n)", "any(a.module.module_ast.defs[i].lo in a.module.only_cover_lines and "
+                               "a.module.module_ast.defs[i].lo <= n and n <= a.module.module_ast.defs[i].hi "
+                               "for i in range(len(a.module.module_ast.defs)))")
 # no-cover wins; an empty only-cover list means everything; otherwise the line, some line of the scope, or an enclosing
 # definition must be named by only_cover
 contract(f"{TF}:AstInfo._in_cover", sig={"self": "AstInfo", "lineno": "int"}, returns="bool",
+         # line ranges of real AST nodes: 1 <= first line <= last line
+         requires=["1 <= self.ast.lo and self.ast.lo <= self.ast.hi", "lineno >= 0",
+                   "all(1 <= d.lo and d.lo <= d.hi for d in self.module.module_ast.defs)"],
          ensures=["implies(lineno in self.module.no_cover_lines, not result)",
                   "implies(lineno not in self.module.no_cover_lines, result == (len(self.module.only_cover_lines) == 0 or "
                   "lineno in self.module.only_cover_lines or contains_only(self) or parent_only(self, lineno)))"])
 contract(f"{TF}:ModuleAstInfo.__post_init__", sig={"self": "ModuleAstInfo"},
          raises={"ValueError": "not disjoint(self.only_cover_lines, self.no_cover_lines)"}, ensures=[
              "disjoint(self.only_cover_lines, self.no_cover_lines)"])
+
+# ---- native replay: real ast nodes with the model's line numbers, real AstInfo / ModuleAstInfo ---------------------------------
+from pyvc.replay import builder  # noqa: E402
+
+
+class _NodeSpec:
+    def __init__(self, lo, hi, defs):
+        self.lo, self.hi, self.defs = lo, hi, defs
+
+
+def _as_def(n):
+    import ast
+    if not isinstance(n, _NodeSpec):
+        return n
+    hi = max(n.hi, n.lo)
+
+    class _Def(ast.FunctionDef):
+        def __repr__(self):
+            return f"<def at lines {self.lineno}..{self.end_lineno}>"
+    node = _Def(name=f"f{n.lo}", args=ast.arguments(posonlyargs=[], args=[], kwonlyargs=[], kw_defaults=[], defaults=[]),
+                           body=[ast.Pass(lineno=hi, end_lineno=hi, col_offset=4, end_col_offset=8)], decorator_list=[],
+                           lineno=n.lo, end_lineno=hi, col_offset=0, end_col_offset=8)
+    node.lo, node.hi, node.defs = n.lo, hi, [node]
+    return node
+
+
+@builder("AST")
+def _b_ast(f, ctx):
+    return _NodeSpec(f.get("lo", 1), f.get("hi", 1), list(f.get("defs") or []))
+
+
+@builder("ModuleAstInfo")
+def _b_mai(f, ctx):
+    import ast
+    from pynguin.instrumentation.transformer import ModuleAstInfo
+    spec = f["module_ast"]
+    defs = [_as_def(d) for d in (spec.defs if isinstance(spec, _NodeSpec) else [])]
+    class _Mod(ast.Module):
+        def __repr__(self):
+            return f"<module with definitions {self.body!r}>"
+    mod = _Mod(body=defs, type_ignores=[])
+    mod.lo, mod.hi, mod.defs = 0, (defs[-1].end_lineno if defs else 0), defs
+    obj = ModuleAstInfo.__new__(ModuleAstInfo)      # (the dataclass is frozen and validates in __post_init__: bypassed here,
+    object.__setattr__(obj, "module_ast", mod)     #  the function under replay does not rely on the validation)
+    object.__setattr__(obj, "only_cover_lines", frozenset(f.get("only_cover_lines") or ()))
+    object.__setattr__(obj, "no_cover_lines", frozenset(f.get("no_cover_lines") or ()))
+    return obj
+
+
+@builder("AstInfo")
+def _b_ai(f, ctx):
+    from pynguin.instrumentation.transformer import AstInfo
+    return AstInfo(ast=_as_def(f["ast"]), module=f["module"])
 
 
 # ==== bounded stand-in: the real import hook on a template module with every placement of markers and name lists ================
@@ -247,6 +302,39 @@ def _check_c08(part: Part, tier, seed):
             continue
         for clause, cls, detail in probs:
             part.violation(clause, cls, detail, target=f"{TF}:ModuleAstInfo.from_path")
+    # one-line definitions, also as the last statement of their enclosing scope (line ranges of length one)
+    baseline2 = _goals(_SUBJECT_ONELINERS, "c08_base2", config.ToCoverConfiguration(enable_inline_pragma_no_cover=False,
+                                                                                   enable_inline_pynguin_no_cover=False))
+    names2 = ["Rect", "Rect.__init__", "Rect.area", "small", "Wide", "Wide.area"]
+    cases2 = [((), (), (q,), ()) for q in names2] + [((), (q,), (), ()) for q in names2]
+    cases2 += [((), (a,), (b,), ()) for a, b in (("Rect.area", "Rect"), ("Rect.__init__", "Rect"), ("Wide.area", "Wide"))]
+    for markers, no_cover, only_cover, ignore in cases2:
+        k += 1
+        part.case()
+        try:
+            probs = exclusion_problems(_SUBJECT_ONELINERS, f"c08_case_{k}", markers, no_cover, only_cover, ignore, baseline2)
+        except Exception as e:  # noqa: BLE001
+            part.error(f"one-liners {(markers, no_cover, only_cover, ignore)}: {type(e).__name__}: {e}")
+            continue
+        for clause, cls, detail in probs:
+            part.violation(clause, cls + ":one-line-scope", {**detail, "module": "one-line definitions"},
+                           target=f"{TF}:AstInfo._in_cover")
+
+
+_SUBJECT_ONELINERS = '''
+class Rect:
+    def __init__(self, w, h): self.w, self.h = w, h
+
+    def area(self): return self.w * self.h if self.w else 0
+class Wide:
+    def area(self): return 2
+    tag = 1
+def other(y):
+    if y:
+        return 1
+    return 2
+def small(x): return x + 1 if x else 0
+'''
 
 
 def bounded_c08(tier, seed):
@@ -260,7 +348,8 @@ def bounded_c08(tier, seed):
                    "entry; pairs of no_cover x ignore_methods; no_cover inside only_cover; marker plus only_cover. Excluded code = "
                    "the marked line, the whole scope whose def/class line is marked or named, the header and first suite of a "
                    "marked compound statement, the two special blocks; 'executable line' = line goal of the unexcluded module",
-             bound="one module, <= 1 (2) markers, <= 2 names")
+             bound="one module, <= 1 (2) markers, <= 2 names; plus a 12-line module of one-line definitions (also as last statement "
+                   "of their class / of the module) with every scope as only_cover and as no_cover entry")
     return guarded(p, _check_c08, tier, seed)
 
 
